@@ -60,6 +60,7 @@ struct ramq { marked_ptr _head, _tail; };
 
 /* ---- harness inputs (named in_* for the native replays) ---- */
 unsigned in_e, in_pop_t, in_push_t, in_gk, in_ki, in_kj; word_t in_val;
+unsigned in_r, in_links, in_lag, in_pt0, in_qt0, in_pat0, in_pt1, in_qt1, in_pat1, in_pt2, in_qt2, in_pat2;   /* pre-state of h_push / h_pop for replay_ops.cpp */
 
 /* ---- ghost state ---- */
 unsigned g_released, g_get_count, g_del_total, g_alloc_count, g_delete_count, g_fresh, g_valdel, g_alloc_fail_from;
@@ -274,6 +275,9 @@ static _Bool node_inv(const struct node* n) {
 static struct node havoc_node(unsigned i) {
   struct node n; havoc_words(&n); n.g_live = 1; n.g_retired = 0; n.g_deleted = 0;
   unsigned pt = nondet_uint(), qt = nondet_uint(); XV_ASSUME(pt < MAXT / 2 && qt < MAXT / 2);
+#ifdef XV_TRACE_SMALL
+  XV_ASSUME(pt <= XV_E + 4 && qt <= XV_E + 4);       /* counterexample extraction only: counters the native replay can set exactly */
+#endif
   n.push_idx = tk_any(pt); n.pop_idx = tk_any(qt);            /* tickets handed out so far: any number, also far beyond entries_per_node */
   XV_ASSUME(node_inv(&n));
   put(i, &n); s_pre[i] = n; return n;
@@ -293,6 +297,12 @@ static unsigned first_free(const struct node* n, unsigned* slot) {
 static unsigned slot_of_idx(unsigned idx, _Bool* ok) {
   for (unsigned c = 0; c < XV_E; c++) if (idx == TK(c)) { *ok = 1; return spec_slot(c); }
   *ok = 0; return 0;
+}
+/* entry classes of a node, 2 bits per entry index: 0 null, 1 value, 2 INVALID */
+static unsigned pat_of(const struct node* n) {
+  unsigned p = 0;
+  for (unsigned s = 0; s < XV_E; s++) p |= (n->ent[s] == 0 ? 0u : n->ent[s] == INVALID ? 2u : 1u) << (2 * s);
+  return p;
 }
 static _Bool listed(const struct node* pre, unsigned i) {      /* node i reachable from element 0 in the pre-state (list 0 -> 1 -> 2) */
   return i == 0 || (i == 1 && pre[0].next == NPTR(1)) || (i == 2 && pre[0].next == NPTR(1) && pre[1].next == NPTR(2));
@@ -493,6 +503,8 @@ void h_push(void) {
   for (unsigned i = 2; i < NN; i++) dead_node(i);
   g_fresh = 2; q._tail = NPTR(0); q._head = nondet_word(); mon_q = &q;
   word_t head0 = q._head; s_head0 = head0;
+  in_e = XV_E; in_r = XV_R; in_links = T0.next != 0; in_lag = T0.next != 0;
+  in_pt0 = T0.push_idx; in_qt0 = T0.pop_idx; in_pat0 = pat_of(&T0); in_pt1 = N0.push_idx; in_qt1 = N0.pop_idx; in_pat1 = pat_of(&N0);
   in_val = nondet_word(); XV_ASSUME((in_val & MARK63) == 0);
   g_trk_val = in_val;
   /* an arbitrary value already in the queue: node gn, ticket gk */
@@ -578,6 +590,9 @@ void h_pop(void) {
   for (unsigned i = 3; i < NN; i++) dead_node(i);
   g_fresh = 3; q._head = NPTR(0); q._tail = nondet_word(); mon_q = &q;
   word_t tail0 = q._tail; s_tail0 = tail0;
+  in_e = XV_E; in_r = XV_R; in_links = (pre[0].next != 0 ? 1u : 0u) | (pre[0].next != 0 && pre[1].next != 0 ? 2u : 0u);
+  in_pt0 = pre[0].push_idx; in_qt0 = pre[0].pop_idx; in_pat0 = pat_of(&pre[0]); in_pt1 = pre[1].push_idx; in_qt1 = pre[1].pop_idx; in_pat1 = pat_of(&pre[1]);
+  in_pt2 = pre[2].push_idx; in_qt2 = pre[2].pop_idx; in_pat2 = pat_of(&pre[2]);
   unsigned gn = nondet_uint(), gk = nondet_uint(); XV_ASSUME(gn < 3 && gk < XV_E);
   unsigned gidx = tk(gk);
   marked_value gw = pre[gn].ent[spec_slot(gk)];
